@@ -144,6 +144,11 @@ class Inliner:
             return ('after', e[1], e[2], f(e[3]), tuple(f(a) for a in e[4]), e[5])
         if t == 'repeat':
             return ('repeat', f(e[1]), e[2])
+        if t == 'mem' and isinstance(e[1], tuple) and e[1] and e[1][0] == 'h':
+            inner = f(e[1][1])
+            if isinstance(inner, tuple) and inner and inner[0] == 'constref':
+                return inner[1]                # *(&v) = v
+            return ('mem', ('h', inner))
         return e
 
     # ------------------------------------------------------------------ folding
@@ -359,6 +364,8 @@ class Inliner:
         if not isinstance(e, tuple) or not e:
             return e
         t = e[0]
+        if t == 'mem' and isinstance(e[1], tuple) and e[1] and e[1][0] == 'h':
+            return self.rebuild(t, e, lambda x: self.inline(x, depth, only))
         if t in ('int', 'enum', 'str', 'param', 'mem', 'unit', 'fn', 'unk', 'loop', 'ref', 'zst', 'never'):
             return e
         if t == 'constdef':
